@@ -10,10 +10,7 @@ fn main() {
     }
     // Silence panic messages of caught panics; the harness reports them itself.
     if args[1] != "genmacro" {
-    std::panic::set_hook(Box::new(|info| {
-        let loc = info.location().map(|l| format!("{}:{}", l.file(), l.line())).unwrap_or_default();
-        pvharness::LAST_PANIC.with(|p| *p.borrow_mut() = loc);
-    }));
+        install_panic_hook();
     }
     match args[1].as_str() {
         "run" => {
@@ -40,6 +37,7 @@ fn main() {
                 "C20" => c20::run(seed, thorough, &mut out),
                 "C21" => c21::run(seed, thorough, &mut out),
                 "C22" => c22::run(seed, thorough, &mut out),
+                "C23" => c23::run(seed, thorough, &mut out),
                 "C24" => c24::run(seed, thorough, &mut out),
                 "C17" => c16::run(seed, thorough, 17, &mut out),
                 _ => {
@@ -86,6 +84,7 @@ fn main() {
                     "C20" => c20::replay(line, &mut out),
                     "C21" => c21::replay(line, &mut out),
                     "C22" => c22::replay(line, &mut out),
+                    "C23" => c23::replay(line, &mut out),
                     "C24" => c24::replay(line, &mut out),
                     "C17" => c16::replay(line, 17, &mut out),
                     _ => {
